@@ -546,6 +546,25 @@ class Prop:
             z = ["xor", fr, f]
             single(N, z if rng.random() < 0.5 else ["not", z], "noisy")
             pair(N, fr, rewrite(f) if rng.random() < 0.5 else f, "noisy", relation="equiv")
+        # ---- 5b. contradictions / tautologies whose operands were each recompressed (leaves included) and whose root is
+        #          not: the cancellation happens inside / across the Tucker factors that tn.round leaves behind
+        def rnd(h):
+            return [rng.choice(["round", "round", "round_tt"]), h]
+        for _ in range(60 if quick else 500):
+            N = rng.randint(1, 4)
+            v = rng.randrange(N)
+            h = ["sym", v] if rng.random() < 0.4 else bounded_tree(rng, N, rng.randint(1, 2), 12)
+            h2 = rewrite(h) if rng.random() < 0.4 else h
+            r = rng.random()
+            if r < 0.35:
+                z = ["and", rnd(h), rnd(["not", h2])]           # contradiction
+            elif r < 0.7:
+                z = ["xor", rnd(h), rnd(h2)]                      # contradiction
+            else:
+                z = ["or", rnd(h), rnd(["not", h2])]            # tautology
+            single(N, z, "cancel-rounded", first_var=bool(v == 0))
+            if rng.random() < 0.3:
+                single(N, ["not", z], "cancel-rounded", first_var=bool(v == 0))
         return cases
 
     # ---------------------------------------------------------------- implementation
